@@ -28,7 +28,8 @@ CLAIM = {
             "compared with max_feerate_per_kw was not narrowed by a truncating integer cast; (R8.6) the segwit flags the "
             "funding clause consumes are one per input and `true` only for an output proven by the streamed previous "
             "transaction (StreamedPSBT decoder, same obligations as C19 R19.4); (R8.7) the fee velocity control restored "
-            "from the store is the one installed in the rebuilt node (same obligations as C12 R12.1). Does not decide "
+            "from the store is the one installed in the rebuilt node (same obligations as C12 R12.1); (R8.8) the witness "
+            "allowance is added to weight_lower_bound only for inputs of a signable spend type. Does not decide "
             "the arithmetic inequality over arbitrary amounts.",
     "note": "non-permissive policy; is_tx_non_malleable / estimate_feerate_per_kw / Address::* trusted by name",
     "technique": "static analysis: loop-iteration path rules (at-most-once credit, credit-or-unknown) + must-pass-through + guard scenarios",
@@ -45,6 +46,7 @@ def run(ctx):
     r85(ctx)
     r86(ctx)
     r87(ctx)
+    r88(ctx)
 
 
 def _updates(fv, b, var):
@@ -385,3 +387,39 @@ def r87(ctx):
     clause depends on them)"""
     from rules import C12 as _c12
     _c12.r121(ctx, rid="R8.7")
+
+
+def r88(ctx):
+    ctx.rule("R8.8", "the weight used for the fee-rate bound is a lower bound: the witness allowance is added to "
+                     "weight_lower_bound only for inputs the signer can sign (spend type != Invalid); crediting weight to a "
+                     "foreign input of unknown type lets a larger fee pass max_feerate_per_kw")
+    p = ctx.prog
+    b = p.fn(f"{NODE}::check_onchain_tx")
+    fv = fnview(ctx, b)
+    incs = []
+    for bi in sorted(fv.live_blocks()):
+        for st in b.stmts(bi):
+            if st.kind == "a" and st.place.is_local() and b.local_name(st.place.local) == "weight_lower_bound" and st.rv.ops:
+                e = render(fv.expr(st.rv.ops[0]))
+                if e.startswith("(weight_lower_bound + ") and e != "(weight_lower_bound + 0)":
+                    incs.append((bi, st.line, e))
+    ctx.floor("R8.8", "witness allowance added to weight_lower_bound", len(incs), 1)
+    sites = R.eq_sites(fv, lambda a, c_: "SpendType::from_script_pubkey(" in a and c_.endswith("SpendType::Invalid"))
+    ctx.ob("R8.8", len(sites) >= 1, f"{b.name}/spend-type-tested",
+           "check_onchain_tx no longer tests the input's spend type before crediting the witness allowance: inputs of unknown type "
+           "inflate the weight and a fee above max_feerate_per_kw passes", where=f"{b.file}:{incs[0][1]}", sample="spend_type == Invalid tested")
+    loops = R.loops_over(fv, lambda x: "uniclosekeys" in x)
+    hdr = {h for h, _, _, _ in loops}
+    for bi_, line, eqe, dife, r0, r1 in sites:
+        bad = [ln for (ib, ln, e) in incs if any(ib in fv.reach(v, cut_nodes=hdr) for (_, v) in eqe)]
+        ctx.ob("R8.8", bool(eqe) and not bad, f"{b.name}/invalid-input-no-allowance",
+               f"an input of spend type Invalid is credited the witness allowance (line {bad[0] if bad else 0})", where=f"{b.file}:{line}",
+               sample="Invalid => + 0")
+    # every allowance increment is behind that test (the != edge)
+    de = set()
+    for s_ in sites:
+        de |= s_[3]
+    for ib, ln, e in incs:
+        ctx.ob("R8.8", bool(de) and fv.must_pass(ib, de), f"{b.name}/allowance-needs-signable",
+               f"the witness allowance `{e[:80]}` is added on a path that did not establish spend type != Invalid", where=f"{b.file}:{ln}",
+               sample="allowance dominated by spend_type != Invalid")
